@@ -354,6 +354,11 @@ impl Unit {
     ) -> Result<()> {
         debug_assert!(!self.written);
 
+        // A unit header with any other address size can't be read.
+        if !matches!(self.address_size(), 1 | 2 | 4 | 8) {
+            return Err(Error::UnsupportedWordSize(self.address_size()));
+        }
+
         let line_program = if self.line_program_in_use() {
             self.entries[self.root.index]
                 .set(constants::DW_AT_stmt_list, AttributeValue::LineProgramRef);
